@@ -15,3 +15,12 @@ open MdVerif.InstanceX
 #print axioms C11X_references_persist
 #print axioms C11X_block_tree_no_leak
 #print axioms C11X_block_tree_fresh
+#print axioms C11X_machine_run
+#print axioms C11X_abstract_reset_fresh
+#print axioms C11X_instances_disjoint
+#print axioms C11X_side_outputs_not_read
+#print axioms C11X_convert_after_reset_full
+#print axioms C11X_reset_side_outputs
+#print axioms C11X_block_parse_exact
+#print axioms C11X_tables_exact
+#print axioms C11X_references_exact
